@@ -43,6 +43,7 @@ func checkProg(c progCase) (inf progInfo, v *verdict) {
 		return inf, nil
 	}
 	defer w.Close()
+	defer sim.ProductionRefreshRate()() // stable layout: see the function
 	px, err := sim.StartProxy(sim.ProxyOpts{Seeds: w.Addrs(w.Masters())})
 	if err != nil {
 		return inf, &verdict{"proxy-start", err.Error()}
@@ -293,6 +294,7 @@ func checkWide(c wideCase) *verdict {
 		return nil
 	}
 	defer w.Close()
+	defer sim.ProductionRefreshRate()() // stable layout: see the function
 	px, err := sim.StartProxy(sim.ProxyOpts{Seeds: w.Addrs(w.Masters())})
 	if err != nil {
 		return &verdict{"proxy-start", err.Error()}
